@@ -5,30 +5,35 @@ From Coq Require Import NArith Bool List Lia.
 From stdpp Require Import base list option.
 From RecordUpdate Require Import RecordSet.
 From RC Require Import Hdr Machine RunInd.
-From RC Require Import Inv InvP SafeHelpers SafePrims SafeCalls SafeGlue SafeDrop SafeCmd SafeCyclic SafeMain SafeColl.
+From RC Require Import Inv InvP SafeHelpers SafePrims SafeCalls SafeGlue SafeDrop SafeCmd SafeCyclic SafeMain SafeColl SafeCollFr.
 Import ListNotations RecordSetNotations.
 Local Open Scope N_scope.
 
-(** [x'] is [x] with another header that has the same strong count, side bit and dropped marker *)
+(** [x'] is [x] with another header that has the same strong count, side bit, finalized bit, and
+    the same dropped marker (or: the value is live and the new header is not marked dropped) *)
 Definition hsim (x x' : obj) : Prop :=
   exists h', x' = x <| o_hdr := h' |> /\ h_rc h' = h_rc (o_hdr x) /\
-  h_side h' = h_side (o_hdr x) /\ is_dropped h' = is_dropped (o_hdr x) /\ h_fin h' = h_fin (o_hdr x).
+  h_side h' = h_side (o_hdr x) /\ h_fin h' = h_fin (o_hdr x) /\
+  (is_dropped h' = is_dropped (o_hdr x) \/ (is_dropped h' = false /\ o_vst x = VLive)).
 
 Lemma hsim_refl x : hsim x x.
-Proof. exists (o_hdr x). split; [destruct x; reflexivity | auto]. Qed.
+Proof. exists (o_hdr x). split; [destruct x; reflexivity | auto 6]. Qed.
 
 Lemma hsim_proj x x' : hsim x x' ->
   o_box x' = o_box x /\ o_vst x' = o_vst x /\ o_ismap x' = o_ismap x /\ o_fields x' = o_fields x /\
   o_cleaner x' = o_cleaner x /\ o_wfields x' = o_wfields x /\ o_side x' = o_side x /\ o_cls x' = o_cls x.
 Proof. intros (h' & -> & _). repeat split. Qed.
 Lemma hsim_hdr x x' : hsim x x' ->
-  h_rc (o_hdr x') = h_rc (o_hdr x) /\ h_side (o_hdr x') = h_side (o_hdr x) /\
-  is_dropped (o_hdr x') = is_dropped (o_hdr x).
-Proof. intros (h' & -> & H1 & H2 & H3 & _). auto. Qed.
+  h_rc (o_hdr x') = h_rc (o_hdr x) /\ h_side (o_hdr x') = h_side (o_hdr x) /\ h_fin (o_hdr x') = h_fin (o_hdr x) /\
+  (is_dropped (o_hdr x') = is_dropped (o_hdr x) \/ (is_dropped (o_hdr x') = false /\ o_vst x = VLive)).
+Proof. intros (h' & -> & H1 & H2 & H3 & H4). auto. Qed.
+Lemma hsim_same_hdr x x' : hsim x x' -> o_hdr x' = o_hdr x -> x' = x.
+Proof. intros (h' & -> & _) He. cbn in He. subst h'. destruct x; reflexivity. Qed.
 
 Lemma hsim_set x h' :
-  h_rc h' = h_rc (o_hdr x) -> h_side h' = h_side (o_hdr x) -> is_dropped h' = is_dropped (o_hdr x) ->
-  h_fin h' = h_fin (o_hdr x) -> hsim x (x <| o_hdr := h' |>).
+  h_rc h' = h_rc (o_hdr x) -> h_side h' = h_side (o_hdr x) -> h_fin h' = h_fin (o_hdr x) ->
+  (is_dropped h' = is_dropped (o_hdr x) \/ (is_dropped h' = false /\ o_vst x = VLive)) ->
+  hsim x (x <| o_hdr := h' |>).
 Proof. intros. exists h'. auto 6. Qed.
 
 Lemma hsum_Forall2 (R : obj -> obj -> Prop) g h h' :
@@ -45,8 +50,16 @@ Section Hsim.
   Lemma okN_hsim b nr nw ind x x' :
     hsim x x' -> obj_okN K b nr nw ind x = true -> obj_okN K b nr nw ind x' = true.
   Proof.
-    intros (h' & -> & H1 & H2 & H3 & _) Hok. unfold obj_okN in *. cbn. unfold is_live in *. cbn.
-    rewrite H1, H2, H3. exact Hok.
+    intros (h' & -> & H1 & H2 & H3 & H4) Hok. destruct (o_box x) eqn:Eb.
+    - apply okN_notyet; [exact Eb|]. apply okN_notyet in Hok; assumption.
+    - destruct (okN_alloc K _ _ _ _ _ Hok Eb) as (O1 & O2 & O3 & O4 & _).
+      eapply okN_alloc_hdr; eauto; rewrite ?H1; auto.
+      destruct H4 as [H4|[H4 Hv]]; rewrite H4.
+      + exact O4.
+      + destruct (k_weak K).
+        * split; [unfold dying; rewrite Hv; discriminate | discriminate].
+        * discriminate.
+    - apply okN_freed; [exact Eb|]. apply okN_freed in Hok; assumption.
   Qed.
 
   Definition heaps_hsim m m' : Prop := Forall2 hsim (heap m) (heap m').
@@ -112,11 +125,11 @@ Section Hsim.
       pose proof (sv_objx _ _ _ _ _ HI _ _ Hx) as HX. unfold ObjX in HX.
       apply (ObjXp_sd K _ _ _ _ Hsd) in HX.
       destruct (hsim_proj _ _ Hsim) as (Pb & Pv & Pm & Pf & Pc & Pw & Ps & _).
-      destruct (hsim_hdr _ _ Hsim) as (S1 & S2 & S3).
+      destruct (hsim_hdr _ _ Hsim) as (S1 & S2 & _ & S3).
       destruct HX as [X1 X2 X3 X4 X5 X6]. split.
-      + rewrite Pb, Pv, S1, S3. exact X1.
+      + rewrite Pb, Pv, S1. intros Hbx Hvx. destruct S3 as [S3|[_ S3]]; [rewrite S3; auto | congruence].
       + unfold dying. rewrite Pb, Pv, S1. exact X2.
-      + intros Hk Hi. rewrite Pb, S3. intros Hbx Hdr. rewrite (Hdead o x x' Hx Hx' Hi). apply X3; auto.
+      + intros Hk Hi. rewrite Pb. rewrite (Hdead o x x' Hx Hx' Hi). apply X3; auto.
       + rewrite Ps. exact X4.
       + rewrite Pm, Pf, Pc, Pw. exact X5.
       + rewrite Pb, Pv. exact X6.
@@ -193,25 +206,35 @@ Section Hsim.
     intros Hlen Hp. apply Forall2_same_length_lookup. split; [symmetry; exact Hlen|].
     intros i x x' Hx Hx'. destruct (Hp i x Hx) as (y & Hy & Hs). unfold get, Machine.id in Hy. rewrite Hx' in Hy. injection Hy as ->. exact Hs.
   Qed.
-  (** modulo marks and tracing counters nothing changed *)
-  Lemma hsim_norm x x' : hsim x x' -> (o_box x = BNotYet -> o_hdr x' = o_hdr x) -> norm_obj x' = norm_obj x.
-  Proof.
-    intros (h' & -> & H1 & H2 & H3 & H4) Hny. unfold norm_obj. cbn.
-    destruct (o_box x) eqn:Eb.
-    - cbn in Hny. rewrite (Hny eq_refl). destruct x; reflexivity.
-    - destruct x; cbn in *. f_equal. unfold norm_hdr. rewrite H1, H2, H3, H4. reflexivity.
-    - destruct x; cbn in *. f_equal. unfold norm_hdr. rewrite H1, H2, H3, H4. reflexivity.
-  Qed.
-  Lemma norm_heaps m m' :
-    heaps_hsim m m' ->
+  (** modulo marks and tracing counters nothing changed: a frame modulo marks *)
+  Lemma FrM_hsim E m m' :
+    heaps_hsim m m' -> dead m' = dead m -> wparam m' = wparam m ->
     (forall o x x', get m o = Some x -> get m' o = Some x' -> o_box x = BNotYet -> o_hdr x' = o_hdr x) ->
-    fmap norm_obj (heap m') = fmap norm_obj (heap m).
+    (forall o x x', get m o = Some x -> get m' o = Some x' -> inD m o = true -> o_hdr x' = o_hdr x) ->
+    FrM K E m m'.
   Proof.
-    intros HF Hny. apply list_eq. intros i. rewrite !list_lookup_fmap.
-    destruct (heap m !! i) as [x|] eqn:Ex.
-    - destruct (hs_l _ _ _ _ HF Ex) as (x' & Ex' & Hs). unfold get in Ex'. unfold Machine.id in *. rewrite Ex'. cbn. f_equal.
-      apply hsim_norm; [exact Hs|]. intros Hb. eapply Hny; eauto.
-    - destruct (heap m' !! i) as [x'|] eqn:Ex'; [|reflexivity].
-      destruct (hs_r _ _ i x' HF Ex') as (x & Hx & _). unfold get in Hx. unfold Machine.id in *. congruence.
+    intros HF Hd Hw Hny Hdead. unfold FrM.
+    assert (HD : forall o, inD (strip m') o = inD (strip m) o) by (intros o; apply (inD_eq m m' o Hd)).
+    split.
+    - reflexivity.
+    - exact Hw.
+    - intros o. rewrite HD. auto.
+    - intros Hc. discriminate Hc.
+    - intros o y Hy. apply get_strip_Some in Hy as (x & Hx & ->).
+      destruct (hs_l _ _ _ _ HF Hx) as (x' & Hx' & Hs). exists (norm_obj x').
+      split; [rewrite get_strip, Hx'; reflexivity|].
+      destruct (hsim_proj _ _ Hs) as (Pb & Pv & Pm & Pf & Pc & Pw & Ps & Pcl).
+      destruct (o_box x) eqn:Eb.
+      + rewrite (hsim_same_hdr _ _ Hs (Hny o x x' Hx Hx' Eb)). apply ObjFr_refl. intros o'. rewrite HD. auto.
+      + apply ObjFr_hs; rewrite ?norm_cls, ?norm_ismap, ?norm_fields, ?norm_cleaner, ?norm_wfields, ?norm_vst, ?norm_box;
+          first [ assumption | intros o'; rewrite HD; solve [auto] | left; congruence
+                | intros _; apply norm_marked; congruence | rewrite norm_marked by congruence; discriminate | congruence ].
+      + apply ObjFr_hs; rewrite ?norm_cls, ?norm_ismap, ?norm_fields, ?norm_cleaner, ?norm_wfields, ?norm_vst, ?norm_box;
+          first [ assumption | intros o'; rewrite HD; solve [auto] | left; congruence
+                | intros _; apply norm_marked; congruence | rewrite norm_marked by congruence; discriminate | congruence ].
+    - intros Hk o y' Hy' Hi Hb Hdr. apply get_strip_Some in Hy' as (x' & Hx' & ->).
+      destruct (hs_r _ _ _ _ HF Hx') as (x & Hx & Hs). rewrite HD in Hi. rewrite inD_strip in Hi.
+      pose proof (Hdead o x x' Hx Hx' Hi) as He. rewrite (hsim_same_hdr _ _ Hs He) in *.
+      exists (norm_obj x). rewrite get_strip, Hx, inD_strip. auto.
   Qed.
 End Hsim.
